@@ -12,7 +12,8 @@
    The composition with the task executor (coq/Timer/Model.v) is validated by the
    correspondence check, not proved: C05 is `partial` in that sense (DESIGN.md section 10). *)
 From Coq Require Import List NArith.
-From DesVerif Require Import Timer.Driver Timer.QueueLemmas Timer.Inv Timer.Exact Timer.Futures Timer.FutureLaws Timer.Model Timer.Compose.
+From DesVerif Require Import Timer.Driver Timer.QueueLemmas Timer.Inv Timer.Exact Timer.Futures Timer.FutureLaws Timer.Model Timer.Compose
+  Timer.Frag Timer.E2EInv Timer.E2ELoop Timer.E2EInit.
 Import ListNotations.
 Open Scope N_scope.
 
@@ -121,6 +122,39 @@ Theorem C05_composite_event_is_driver_event : forall (wfix : bool) (t m : N) (sp
   forall m', (m' =? 0) <> (m =? 0) -> drv_of (module_event wfix t m spawn fire w) m' = drv_of w m'.
 Proof. exact module_event_is_driver_event. Qed.
 Print Assumptions C05_composite_event_is_driver_event.
+
+(* END TO END, for the composite model itself (scripted tasks + FIFO executor + the two
+   drivers + the event set + waker table), on the fragment {sleep(d), sleep_until(t), log}:
+   for EVERY list of tasks -- any number, on either module, spawned at start-up or by a message
+   at any instant, any durations (zero, equal, coinciding across tasks and modules ...) -- the
+   run of the model ENDS (the loop's fuel is never exhausted), every task has finished, and
+   task k has logged exactly  exp_run (t_start k) (t_steps k):  the entry after sleep(d) begun
+   at x is x + d, after sleep_until(t) it is max x t -- every await returned at exactly its
+   deadline.  [init_ok]: the task is as the decoder produces it (not yet polled, module < 2)
+   and its steps lie in the fragment; [decode_init_ok] shows that every script line over the
+   fragment decodes to such tasks.  The proof composes the driver invariant
+   (event_body_inv / deactivate_snap), the futures' contract, the executor's run over the
+   woken tasks, and the event-set facts of C01's specification (SI: fetch returns a pending
+   event of minimal time).  Other steps (timeout, select, interval, reset, drop, hand-over,
+   message-driven receives) are covered for the composite by the correspondence check only. *)
+Theorem C05_composite_sleep_exact : forall ts, Forall init_ok ts ->
+  exists w, run_tasks true ts = (w, true) /\
+    Forall2 (fun tk0 tk => t_fin tk = true /\ t_log tk = exp_run (t_start tk0) (t_steps tk0)) ts (w_tasks w).
+Proof. exact composite_sleep_exact. Qed.
+Print Assumptions C05_composite_sleep_exact.
+
+(* ... and at every point of the run nothing has been logged that the property does not
+   demand: after any number n of loop iterations each task's log is a prefix of exp_run *)
+Theorem C05_composite_sleep_prefix : forall ts, Forall init_ok ts -> forall n,
+  let w := match Common.Fuel.iter_nat n (loop_step true) (sim_start true (init_world ts)) with inl w => w | inr w => w end in
+  Forall2 (fun tk0 tk => exists rest, exp_run (t_start tk0) (t_steps tk0) = t_log tk ++ rest) ts (w_tasks w).
+Proof. exact composite_sleep_prefix. Qed.
+Print Assumptions C05_composite_sleep_prefix.
+
+Theorem C05_fragment_scripts_decode_ok : forall input,
+  Forall (fun tk => Forall frag_step (t_steps tk)) (decode input) -> Forall init_ok (decode input).
+Proof. exact decode_init_ok. Qed.
+Print Assumptions C05_fragment_scripts_decode_ok.
 
 (* a deadline that is already reached completes at once, without registering *)
 Theorem C05_due_deadline_completes_immediately : forall now s dr, deadline s <= now ->
